@@ -144,6 +144,39 @@ def handle (j : Json) : R Json := do
       | _ => []
     return reply input out Sideloaded.toJson (Sideloaded.valid ctx)
       ([("may_reuse", toJson (Spec.sideloadMayReuse ctx input && Spec.sideloadSameRequest requested input))] ++ areas)
+  | "sideopt" =>
+    let rj ← fld j "rec"
+    let cds ← listOf (fun c => do return ((← asStr (← idx c 0)), (← asInt (← idx c 1)), (← asInt (← idx c 2)))) (← fld rj "cds")
+    let r : RecInfo := ⟨← strF rj "id", (strF rj "original_id").toOption, ← intF rj "length", ← boolF rj "circular", cds⟩
+    let optsOf (o : Json) : R SideOpts := do
+      let (subs, protos) ← match o.getObjVal? "file" with
+        | .ok fj => do
+          let fjj ← wireToJ fj
+          match Sideloaded.fromJson { r.ctx with recordId := (Spec.strField fjj "record_id").getD r.id } fjj with
+          | .reuse f => pure (f.subregions, f.protoclusters)
+          | _ => throw "C11: file annotations do not decode"
+        | .error _ => pure ([], [])
+      let simple ← match o.getObjVal? "simple" with
+        | .ok (.arr a) => do pure (some ((← asStr a[0]!), (← asInt a[1]!), (← asInt a[2]!)))
+        | _ => pure none
+      return { nFiles := (natF o "n_files").toOption.getD 0, fileSubs := subs, fileProtos := protos, simple := simple,
+               markers := ← listOf asStr (fldD o "markers" (jArr [])), padding := intFD o "padding" 20000 }
+    let saved ← optsOf (← fld j "saved")
+    let cur ← optsOf (← fld j "cur")
+    let stored := saved.runOnRecord r none
+    let storedJ := match stored with | .reuse x => jToWire x.toJson | o => .str (outcomeName o)
+    let out := cur.regenerate r input
+    let requestedNow := SideOpts.load r cur
+    let may := match stored, requestedNow with
+      | .reuse x, .reuse y => Spec.sideloadOptsMayReuse cur x y
+      | _, _ => true
+    let final := match out with
+      | .reuse y => cur.runOnRecord r (some y)
+      | .discard => cur.runOnRecord r none
+      | .refuse e => .refuse e
+    return reply input out Sideloaded.toJson (Sideloaded.valid r.ctx)
+      [("stored", storedJ), ("may_reuse", toJson (Spec.sideloadMayReuse r.ctx input && may)),
+       ("final", match final with | .reuse y => jToWire y.toJson | o => .str (outcomeName o))]
   | "hmmer" =>
     let maxE ← decOf (← fld j "max_evalue")
     let minS ← decOf (← fld j "min_score")
@@ -161,10 +194,33 @@ def handle (j : Json) : R Json := do
       | .reuse x => (jArr ((Spec.hmmerFresh x.hits maxE minS).map fun (h : HmmerHit) => jToWire h.toJson),
                      Spec.hmmerOnBoundary x.hits maxE minS)
       | _ => (.null, false)
+    -- run_on_record after regeneration: the PFAM database version guard
+    let runInfo ← match j.getObjVal? "pfam" with
+      | .ok pj => do
+        let m := if (strF pj "module").toOption.getD "full_hmmer" == "cluster_hmmer" then HmmerModule.cluster else HmmerModule.full
+        let o : PfamOpts := ⟨← strF pj "full", ← strF pj "cluster", ← strF pj "latest"⟩
+        let results : Option (Option HmmerRes) := match out with
+          | .reuse y => some (some y)
+          | .discard => some none
+          | .refuse _ => none
+        match results with
+        | none => pure []
+        | some res =>
+          let run := match hmmerRunOnRecord m o res with
+            | .reuse (.keep _) => "keep"
+            | .reuse (.rerun v) => "rerun:" ++ v
+            | o' => outcomeName o'
+          let allowed := match res with
+            | some y => (match dbVersionOfPath y.database with
+                         | .reuse v => Spec.pfamKeepAllowed m o v
+                         | _ => false)
+            | none => false
+          pure [("run", Json.str run), ("keep_allowed", toJson allowed)]
+      | .error _ => pure []
     return reply input out HmmerRes.toJson (HmmerRes.valid ctx)
-      [("may_reuse", toJson (Spec.hmmerMayReuse ctx maxE minS input)), ("reference", reference),
+      (runInfo ++ [("may_reuse", toJson (Spec.hmmerMayReuse ctx maxE minS input)), ("reference", reference),
        ("fresh", fresh), ("on_boundary", toJson onBoundary),
-       ("domain_ids", jStrs (match out with | .reuse y => y.domainIds | _ => []))]
+       ("domain_ids", jStrs (match out with | .reuse y => y.domainIds | _ => []))])
   | "tta" =>
     -- a history driven through `main.run_module` with the real tta module: per step the stored JSON
     -- (if any) is regenerated under the step's threshold; the module runs when it is enabled
